@@ -1,11 +1,13 @@
 mod exec;
 mod mocks;
+mod tables;
 mod tiny;
 
 fn main() {
     let a: Vec<String> = std::env::args().collect();
     match a.get(1).map(|s| s.as_str()) {
         Some("exec") => exec::exec(&a[2], &a[3]),
+        Some("table") => tables::table(&a[2], &a[3]),
         _ => {
             eprintln!("usage: mvh exec <scenarios.ndjson> <trace.ndjson>");
             std::process::exit(3);
